@@ -98,6 +98,17 @@ def gen_c19(repo):
     out.append('/-- `AsyncMetricStorage::Record` passes the view\'s aggregation config to `CreateAggregation` (D63) -/\n'
                'def asyncStorageUsesConfig : Bool := ' + ('true' if re.search(r'aggregation_config', m.group(1)) else 'false') + '\n')
 
+    # Meter::storage_registry_ has one entry per stream (D09): keyed through StorageRegistryKey(descriptor, view index)
+    mc = X._strip_comments(X._read(repo, 'sdk/src/metrics/meter.cc'))
+    per_stream = (len(re.findall(r'storage_registry_\[\s*registry_key\s*\]\s*=\s*storage', mc)) == 2 and
+                  len(re.findall(r'StorageRegistryKey\(\s*instrument_descriptor\s*,\s*view_index\+\+\s*\)', mc)) == 2 and
+                  re.search(r'std::string\s+StorageRegistryKey\(.*?\)\s*\{[^}]*name_[^}]*type_[^}]*value_type_[^}]*view_index[^}]*\}', mc, re.S) is not None)
+    by_name = len(re.findall(r'storage_registry_\[\s*instrument_descriptor\.name_\s*\]\s*=\s*storage', mc)) == 2
+    if not per_stream and not by_name:
+        raise X.ExtractError('meter.cc: how Register*MetricStorage keys storage_registry_ is not recognised')
+    out.append('/-- `storage_registry_` is keyed per stream: instrument name, type, value type, index of the view (D09) -/\n'
+               'def storageRegistryPerStream : Bool := ' + ('true' if per_stream else 'false') + '\n')
+
     vr = X._strip_comments(X._read(repo, 'sdk/include/opentelemetry/sdk/metrics/view/view_registry.h'))
     m = X._one(r'if\s*\(\s*!found\s*\)\s*\{\s*static\s+const\s+View\s+view\(\s*"((?:[^"\\]|\\.)*)"\s*\)', vr, 'default view of FindViews')
     out.append(f'def defaultViewName : List UInt8 := {X.lean_bytes(X._c_string_literal(m.group(1)))}\n')
